@@ -13,7 +13,7 @@ from .. import gen, lib, ref
 from ..lib import call
 
 PROP = "C03"
-PLAN = {"quick": (2400, 200), "thorough": (32000, 2400)}
+PLAN = {"quick": (1280 + 2000, 200), "thorough": (20480 + 30000, 2400)}
 RULE = ("case = constructor literals (valid and invalid) + an initial vector + a history of 5-30 (quick) / up to 60 "
         "(thorough) symbolic public KnotVector operations, ~30% aimed at being invalid, over a pool of vectors that "
         "grows by copy / non in-place operators / split; after every step all pool members are compared with their "
@@ -107,7 +107,55 @@ def gen_op(rng):
     return {"op": rng.choice(["copy", "deepcopy", "KnotVector"]), "t": tgt}
 
 
+# ---- bounded-exhaustive part: every sequence of 2 (quick) / 3 (thorough) operations of a fixed alphabet on fixed vectors
+_B = {"dq": 1, "keep": [True] * 8, "mults": [1] * 8, "new": [["n", 0, "1/3"]], "shiftit": False, "usepool": False}
+ALPHABET = [
+    {"op": "insert", "via": "method", "nodes": [["n", 0, "1/2"]]},
+    {"op": "insert", "via": "iadd", "nodes": [["ki", 0]]},
+    {"op": "insert", "via": "method", "nodes": [["ke", 0]]},
+    {"op": "insert", "via": "add", "nodes": [["out", "r", "1/2"]]},
+    {"op": "insert", "via": "method", "nodes": [["ke", 0], ["ke", 1]]},
+    {"op": "remove", "via": "method", "nodes": [["ki", 0]]},
+    {"op": "remove", "via": "isub", "nodes": [["ke", 1]]},
+    {"op": "shift", "via": "method", "v": ["v", "1/2"]},
+    {"op": "scale", "via": "imul", "v": ["v", 2]},
+    {"op": "scale", "via": "method", "v": ["v", 0]},
+    {"op": "normalize"},
+    {"op": "degree", "v": ["d", 1]},
+    {"op": "degree", "v": ["d", -1]},
+    {"op": "or", "other": 0, "build": _B},
+    {"op": "split", "nodes": [["n", 0, "1/2"]]},
+    {"op": "copy"},
+]
+BASES = [[0, 1], [0, "1/3", 1], [0, 0, 1, 1], [0, 0, "1/2", "1/2", 1, 1], [-1, -1, -1, 0, "1/2", 1, 1, 1]]
+
+
+def enum_size(tier):
+    L = 2 if tier == "quick" else 3
+    return len(BASES) * len(ALPHABET) ** L
+
+
+ENUMERATED = {"quick": (enum_size("quick"), "every sequence of 2 operations of a 16-operation alphabet (valid and invalid requests, in place and not) on 5 fixed vectors of degree 0..2"),
+              "thorough": (enum_size("thorough"), "every sequence of 3 operations of a 16-operation alphabet (valid and invalid requests, in place and not) on 5 fixed vectors of degree 0..2")}
+
+
+def enum_case(idx, tier):
+    L = 2 if tier == "quick" else 3
+    n = len(ALPHABET)
+    base = BASES[idx // n ** L]
+    k = idx % n ** L
+    ops = []
+    for pos in range(L):
+        op = dict(ALPHABET[k % n])
+        op["t"] = pos  # later operations may hit the members created by earlier ones
+        ops.append(op)
+        k //= n
+    return {"U": base, "numtype": "frac", "literals": [], "mutated": [], "ops": ops, "enumerated": True}
+
+
 def gen_case(rng, idx, tier):
+    if idx < enum_size(tier):
+        return enum_case(idx, tier)
     nops = rng.randint(5, 30) if tier == "quick" else rng.randint(10, 60)
     r = rng.random()
     if r < 0.2:
@@ -184,6 +232,12 @@ def resolve_atom(a, m, nt):
         pool = ks if kind == "k" or len(ks) <= 2 else ks[1:-1]
         val = pool[a[1] % len(pool)]
         # take the library's own object for that knot
+        for x in actual:
+            if ref.fr(x) == val:
+                return x, val
+        return lib.num(val, "frac"), val
+    if kind == "ke":
+        val = ks[0] if a[1] == 0 else ks[-1]
         for x in actual:
             if ref.fr(x) == val:
                 return x, val
@@ -727,7 +781,7 @@ def run_case(case, ctx):
         a2, r2 = ctx.counters["steps_accept"] + ctx.counters["steps_either_accepted"], ctx.counters["steps_reject"]
         accepted += a2 - before_counts[0]
         rejected += r2 - before_counts[1]
-    ctx.mark_nontrivial(accepted >= 3 and rejected >= 1)
+    ctx.mark_nontrivial((accepted >= 3 and rejected >= 1) or (case.get("enumerated") and accepted + rejected >= 2))
 
 
 def resync(ctx, m, opname):
